@@ -54,9 +54,12 @@ def midi_key(name, octave):
     return P.note_int(name, octave) + 12
 
 
+_LENGTHS = dict((v[0], 1 / Fraction(v[2])) for v in V.VALUES)
+
+
 def entry_length(label):
     """Exact duration in whole notes of a vocabulary value."""
-    return 1 / Fraction(V.BY_LABEL[label][2])
+    return _LENGTHS[label]
 
 
 def bar_length(bar):
